@@ -42,7 +42,7 @@ def build(mode):
     tdir = os.path.join(TARGET, m.get("target", mode))
     env = env_base()
     env.update(m.get("env", {}))
-    cmd = list(m["build"]) + ["--manifest-path", os.path.join(HARNESS, "Cargo.toml"), "--target-dir", tdir]
+    cmd = list(m["build"]) + ["--manifest-path", os.path.join(HARNESS, "Cargo.toml"), "--target-dir", tdir] + m.get("build_tail", [])
     t0 = time.time()
     p = subprocess.run(cmd, env=env, stdout=subprocess.PIPE, stderr=subprocess.STDOUT, text=True, cwd=HARNESS)
     ok = p.returncode == 0
@@ -168,13 +168,23 @@ def main():
     viols, stats, distinct, inconclusive, notes = [], [], set(), [], []
     mode_summary = {}
     external = []
-    # 1. builds
+    # 1. builds (modes with distinct target directories are built concurrently)
     binaries = {}
+    todo = []
     for r in runs:
-        mode = r["mode"]
-        if mode in binaries or r.get("external"):
-            continue
-        ok, binary, log, dt = build(mode)
+        mode = r["mode"] if not r.get("external") else None
+        if mode and mode not in todo:
+            todo.append(mode)
+    groups = {}
+    for mode in todo:
+        groups.setdefault(MODES[mode].get("target", mode), []).append(mode)
+
+    def build_group(modes):
+        return [(m,) + build(m) for m in modes]
+
+    with ThreadPoolExecutor(max_workers=4) as ex:
+        built = [x for grp in ex.map(build_group, groups.values()) for x in grp]
+    for (mode, ok, binary, log, dt) in built:
         if not ok:
             if MODES[mode].get("optional"):
                 notes.append(f"mode {mode} unavailable (build failed); skipped")
@@ -203,9 +213,7 @@ def main():
         if r.get("external"):
             continue
         mode = r["mode"]
-        if binaries.get(mode) is None and not MODES[mode].get("runner"):
-            continue
-        if binaries.get(mode) is None and MODES[mode].get("optional") and mode not in mode_summary:
+        if mode not in mode_summary:
             continue
         n = r.get("shards", NCPU)
         args = ["--prop", prop, "--tier", tier, "--seed", str(seed)] + r.get("args", [])
